@@ -55,6 +55,7 @@ def main():
     ap.add_argument('--all-props', action='store_true')
     ap.add_argument('--tier', default='quick')
     ap.add_argument('--jobs', type=int, default=3)
+    ap.add_argument('--new', action='store_true', help='only (change, property) pairs without a recorded result')
     a = ap.parse_args()
     have = claimed()
     jobs = []
@@ -79,6 +80,8 @@ def main():
             props = [bp] if bp else []
             props += [p for p in meta.get('also_breaks', [])]
         for p in props:
+            if a.new and isinstance(meta.get('caught_by'), dict) and p in meta['caught_by']:
+                continue
             if p in have:
                 jobs.append((sid, p))
             else:
